@@ -732,6 +732,9 @@ func (pe *PolicyEngine) AddPodByNameAndNamespace(name, ns string) (Peer, error) 
 		Name:      name,
 		Namespace: ns,
 		FakePod:   true,
+		// a policy of that namespace may select this pod too (exposure analysis then updates its exposure data)
+		IngressExposureData: k8s.PodExposureInfo{ClusterWideConnection: common.MakeConnectionSet(false)},
+		EgressExposureData:  k8s.PodExposureInfo{ClusterWideConnection: common.MakeConnectionSet(false)},
 	}
 	if err := pe.resolveSingleMissingNamespace(ns); err != nil {
 		return nil, err
